@@ -6,6 +6,13 @@ Streams (S3, model vs implementation)
                      rawBody / serial / the counter afterwards / the exception class, against
                      Txdbus.Msg.construct (the body travels as the bytes marshal.marshal produced - the
                      body codec is C01/C02's model; the message model is parameterised by it)
+  wire-codec         the same constructor calls with the model marshalling the body ITSELF (`buildw`: the body codec is
+                     `wireCodec`, the instance `parse_marshal_c01*` are about - C01's code model at the offsets message.py uses),
+                     bodies from C01's value space (harness/gen_values.py) and the local generator, top level as list / tuple /
+                     dbusOrder object; rawMessage, rawBody, the descriptors collected, and the body parseMessage returns
+                     (model parse with `wireCodec`) against the real code.  Every case is CERTIFIED by the driver to satisfy
+                     the executable premises of `parse_marshal_c01_checked` / `_checked_none` / `parse_marshal_no_body`
+                     (`cert=`; stat `certified-inside-theorem-hypotheses`), and the theorem's conclusion is re-checked on it
   construct-malformed  invalid names per constructor, reserved path, reply serials outside uint32,
                      _maxMsgLen lowered around the actual size (subclass, as tests/test_message.py does)
   parse-own          parseMessage(txdbus's own bytes) against Txdbus.Msg.parseMessage (view: type, serial,
@@ -54,11 +61,12 @@ try:                                    # the shared type-directed generator of 
 except Exception:                       # pragma: no cover - the local generator below is always available
     gv = None
 
-STREAMS = ['build', 'construct-malformed', 'parse-own', 'spec-bytes', 'parse-foreign', 'parse-foreign-containers',
+STREAMS = ['build', 'wire-codec', 'construct-malformed', 'parse-own', 'spec-bytes', 'parse-foreign', 'parse-foreign-containers',
            'parse-wrongtype', 'fragment-vs-general', 'remarshal-parsed', 'tables-immutable']
 THEOREMS = ['marshal_wellformed', 'serial_fresh', 'parse_marshal', 'parse_foreign', 'cannot_construct',
             'constructed_from_arguments', 'parse_foreign_of_constructed',
-            'parse_marshal_c01', 'parse_marshal_c01_checked', 'parse_marshal_no_body', 'parse_foreign_with_C02']
+            'parse_marshal_c01', 'parse_marshal_c01_checked', 'parse_marshal_c01_checked_none', 'parse_marshal_no_body',
+            'parse_foreign_with_C02', 'parse_foreign_of_constructed_c01', 'body_in_place']
 TRUSTED_BASE = [
     'message body bytes: the model takes the bytes marshal.marshal produced as an input (opaque body codec; '
     'C01/C02 own the codec model), and the theorems take the codec round trip as a named hypothesis',
@@ -704,7 +712,7 @@ def wf_bit(raw, fds):
     if len(raw) > 262144:
         return '-'
     try:
-        R.wf_parse(raw, fds=fds)
+        R.wf_parse(raw, fds=fds, lax_body_arrays=True)      # Spec.decodeMsg does not look into the body either
         return '1'
     except R.NotWF:
         return '0'
@@ -995,11 +1003,15 @@ def check_wellformed(ctx, x, obs, m, oob_after, nfds):
         bad('raw-parts-differ', 'rawMessage != rawHeader + rawPadding + rawBody', obs['raw'][:400])
         return
     try:
-        wf = R.wf_parse(raw, fds=oob_after, max_len=DEFAULT_MAX)   # (the class limit is judged in judge_build)
+        # (the class limit is judged in judge_build; an array of more than 2^26 bytes INSIDE the body is not judged: the
+        # statement defines well-formed by header, padding, body length and serial - notes/C03.md "observed, not flagged")
+        wf = R.wf_parse(raw, fds=oob_after, max_len=DEFAULT_MAX, lax_body_arrays=True)
     except R.NotWF as e:
         bad('not-well-formed', 'the serialised %s is not a well-formed DBus message: %s' % (CLSNAME[x['cls']], e),
             obs['raw'][:400], 'a message the strict parser accepts')
         return
+    if wf.get('body_arrays_over_limit'):
+        ctx.stat('observed-not-flagged:body-array-over-2^26')
     if wf['type'] != MTYPE[x['cls']]:
         bad('type-code-differs', 'message type code %d for a %s' % (wf['type'], CLSNAME[x['cls']]), wf['type'], MTYPE[x['cls']])
     want_flags = (0 if x['er'] else 1) | (0 if x['as'] else 2)
@@ -1207,6 +1219,99 @@ def run_build_stream(ctx, marshal, message, stream, cases):
         ctx.case(stream, sample=public(x), nontrivial=nontrivial(x))
         results.append((x, obs, m, oob_after))
     return results
+
+
+def buildw_line(x, maxlen=None):
+    rs = x['reply_serial']
+    return ' '.join(['buildw', x['cls'], str(x['next']), str(x['max'] if maxlen is None else maxlen), tf(x['er']), tf(x['as']),
+                     opt_s(x['path']), opt_s(x['member']), opt_s(x['interface']), opt_s(x['error_name']),
+                     'N' if rs is None else str(rs), opt_s(x['destination']), opt_s(x['sender']),
+                     opt_s(x['signature']), 'N' if x['oob'] is None else str(x['oob']),
+                     'N' if x['body_line'] is None else x['body_line']])
+
+
+def respell_top(rng, x):
+    """The same case with the top-level `body` spelled as a tuple or a dbusOrder object (message.py hands it to
+    marshal.marshal as it is; C01's `topItems` covers the three spellings)."""
+    if x['body_line'] is None or not x['signature'] or gv is None:
+        return x
+    r = rng.random()
+    if r < 0.7:
+        return x
+    body = case_body(x)
+    if not isinstance(body, list):
+        return x
+    try:
+        if r < 0.85:
+            line = vc.to_line(tuple(body))
+        else:
+            vc.register_obj_class(gv.DbusOrderStruct, 0)
+            line = vc.to_line(gv.DbusOrderStruct(body))
+        vc.from_line(line)
+    except Exception:
+        return x
+    y = dict(x)
+    y['body_line'] = line
+    return y
+
+
+def run_wire_codec(ctx, marshal, message, cases):
+    """S3 for the composed instance: the model marshals and unmarshals the body with C01's code model (`wireCodec`)."""
+    lines = [buildw_line(x, real_max(message, x)) for x in cases]
+    out = ctx.model(lines)
+    for i, x in enumerate(cases):
+        obs, m, oob_after = construct_real(message, x)
+        ctx.impl_trace()
+        ctx.case('wire-codec', sample=public(x), nontrivial=bool(x['signature']))
+        top = (x['body_line'] or 'N').split()[0]
+        ctx.stat('wire-codec:top=%s' % {'L': 'list', 'U': 'tuple', 'O': 'dbusOrder-object', 'N': 'None'}.get(top, top))
+        ctx.stat('wire-codec:%s:oob=%s:%s' % (x['cls'], 'None' if x['oob'] is None else x['oob'], 'ok' if obs['ok'] else obs['err']))
+        if obs['ok']:
+            fds = oob_after if oob_after is not None else []
+            try:
+                pm = message.parseMessage(m.rawMessage, fds)
+                pval = 'N' if not getattr(pm, 'signature', None) else vc.to_line(list(pm.body))
+            except Exception as e:
+                pval = '!' + exc_name(e)
+            real = {'ok': True, 'serial': obs['serial'], 'next': obs['next'], 'raw': obs['raw'], 'hdr': obs['hdr'],
+                    'pad': obs['pad'], 'body': obs['body'], 'ufds': obs['ufds'],
+                    'fds': 'N' if oob_after is None else ('-' if not oob_after else ','.join(str(f) for f in oob_after)),
+                    'pval': pval}
+        else:
+            real = {'ok': False, 'err': obs['err'], 'next': obs['next']}
+        if out is None:
+            continue
+        line = out[i]
+        head, _, pv = line.partition(' pval=')
+        d = kv(head)
+        if d['_head'] == 'ok':
+            mo = {'ok': True, 'serial': int(d['serial']), 'next': int(d['next']), 'raw': d['raw'], 'hdr': d['hdr'],
+                  'pad': d['pad'], 'body': d['body'], 'ufds': d['ufds'], 'fds': d['fds'], 'pval': pv}
+        elif d['_head'] == 'err':
+            mo = {'ok': False, 'err': d['kind'], 'next': int(d['next'])}
+        else:
+            mo = {'malformed': line[:300]}
+        if mo != real:
+            ctx.disagree('wire-codec', public(x), mo, real,
+                         detail='construct / parseMessage with the body codec wireCodec (C01\'s code model) against message.py')
+        cert, thm = d.get('cert', '?'), d.get('thm', '-')
+        # every generated case inside the statement's domain must lie INSIDE the hypotheses of the composed theorems
+        if cert == '1' or cert == 'nobody':
+            ctx.stat('certified-inside-theorem-hypotheses')
+            ctx.stat('certified:%s' % ('parse_marshal_no_body' if cert == 'nobody' else
+                                       'parse_marshal_c01_checked' if x['oob'] is not None else 'parse_marshal_c01_checked_none'))
+            if thm == '0':
+                ctx.disagree('wire-codec', public(x), 'thm=0', 'thm=1',
+                             detail='the evaluated model contradicts the conclusion of parse_marshal_c01_checked* / body_in_place')
+            elif thm == '1':
+                ctx.stat('theorem-conclusion-rechecked')
+        elif cert == '-':
+            ctx.stat('outside-theorems:pre-filled-oobFDs')
+        else:
+            ctx.stat('not-certified:' + cert)
+            if obs['ok'] and in_domain(x) and not x.get('arity_mismatch'):
+                ctx.disagree('wire-codec', public(x), 'cert=' + cert, 'cert=1',
+                             detail='a constructible generated case lies outside the hypotheses of parse_marshal_c01_checked*')
 
 
 def run_parse_own(ctx, message, built):
@@ -1579,6 +1684,31 @@ def run_real_limit(ctx, marshal, message):
                     ctx.violation('parse-own-differs', 'the %d-byte message does not parse back' % size, inp=inp)
                 del pm
             del s, m
+    # observed, NOT flagged (review 2, 1.1): a body array of more than 2^26 bytes inside a message below 2^27 constructs and
+    # parses back.  C03's statement defines well-formed by header / padding / body length / serial; the array limit is the
+    # wire codec's (C01/C02).  The oracle must not demand more than the statement: only the statement's clauses are judged.
+    try:
+        big = ['x' * (34 * 2 ** 20)] * 2
+        set_next(message, 78)
+        m = message.MethodReturnMessage(1, signature='as', body=[big])
+        ctx.impl_trace()
+        ctx.case('real-limit', sample={'cls': 'ret', 'body': "as, 2 strings of 34 MiB", 'constructed': True}, n=1)
+        wf = R.wf_parse(m.rawMessage, fds=[], lax_body_arrays=True)
+        if wf.get('body_arrays_over_limit'):
+            ctx.stat('observed-not-flagged:body-array-over-2^26')
+            ctx.note('MethodReturnMessage(1, signature=\'as\', body=[2 strings of 34 MiB]) constructs (%d bytes); its array length '
+                     'word %d exceeds 2^26: outside C03\'s definition of well-formed, recorded only'
+                     % (len(m.rawMessage), wf['body_arrays_over_limit'][0]))
+        if wf['serial'] != m.serial or wf['body'] != P.raw_parts(m)[2] or wf['body_len'] != len(P.raw_parts(m)[2]):
+            ctx.violation('not-well-formed', 'the 71 MB method return is not header ++ padding ++ body with the right length word',
+                          inp={'kind': 'real-limit', 'cls': 'ret', 'body': 'as 2x34MiB'})
+        pm = message.parseMessage(m.rawMessage, [])
+        if pm.body != [big] or pm.serial != m.serial:
+            ctx.violation('parse-own-differs', 'the 71 MB method return does not parse back',
+                          inp={'kind': 'real-limit', 'cls': 'ret', 'body': 'as 2x34MiB'})
+        del pm, m, big
+    except Exception as e:
+        ctx.note('the 71 MB array body: %s (recorded only)' % exc_name(e))
 
 
 # ---------------------------------------------------------------------------------- corpus / replay
@@ -1629,6 +1759,8 @@ def replay_case(ctx, marshal, message, data):
     x.setdefault('_what', 'corpus')
     res = run_build_stream(ctx, marshal, message, 'build', [x])
     run_parse_own(ctx, message, res)
+    if len(x.get('body_line') or '') < 50000:
+        run_wire_codec(ctx, marshal, message, [x])
 
 
 def replay(ctx, data):
@@ -1660,10 +1792,16 @@ def run(ctx):
             if obs['ok']:
                 ctx.stat('build:len=%s' % ('<64' if len(m.rawMessage) < 64 else '<256' if len(m.rawMessage) < 256 else '>=256'))
         run_parse_own(ctx, message, built)
+        nw = ctx.scale(quick=1200, thorough=40000)
+        wcases = [x for x in cases[:8] if len(x.get('body_line') or '') < 50000] + \
+                 [respell_top(rng, x) for x in cases[-nw:]]
+        run_wire_codec(ctx, marshal, message, wcases)
         own = [(public(x), m.rawMessage, oob) for x, obs, m, oob in built if obs['ok'] and in_domain(x)]
         run_remarshal(ctx, message, own[:ctx.scale(quick=1500, thorough=30000)])
         mal = run_malformed(ctx, marshal, message, ctx.scale(quick=1500, thorough=50000))
         run_parse_own(ctx, message, mal)
+        run_wire_codec(ctx, marshal, message, [x for x, _, _, _ in mal if len(x.get('body_line') or '') < 50000]
+                       [:ctx.scale(quick=400, thorough=10000)])
         run_foreign(ctx, marshal, message, ctx.scale(quick=2000, thorough=70000))
         run_wrongtype(ctx, marshal, message, ctx.scale(quick=1200, thorough=40000))
         for _ in range(ctx.scale(quick=6, thorough=40)):
